@@ -10,4 +10,5 @@ CONSTANTS
   MaxEvents = 1
   Dev <- DEmpt
   Pairs2 = FALSE
+  NoDef <- NoDef0
 INVARIANT BareAfterAck
